@@ -505,7 +505,7 @@ no stall once everything arrived, (0,0) after the end. non-trivial = every (codi
     ],
     randoms: &[RandomDef {
         name: "random",
-        cases: |t: Tier| t.pick(20_000, 1_600_000),
+        cases: |t: Tier| t.pick(200_000, 6_000_000),
         tape_len: 260,
         exec: None,
     }],
